@@ -103,6 +103,14 @@ def skip_discipline(prog, rep, R):
 
 
 def check_c12(prog, rep, tier, cfg):
+    # C12.g — "a break is always forced before a multi-line literal" (so that its lines can be indented like the opening quotes'
+    # line): the hard-break table and `the invariant is asked before any other answer is given` (shared with C02.a / C02.b)
+    if not getattr(rep, "_c12_alias_running", False):
+        import c02 as _c02
+        from engine import AliasReport as _AR
+        ar = _AR(rep, [("C02.a", r".", "C12.g"), ("C02.b", r".", "C12.g")])
+        ar._c12_alias_running = True
+        _c02.check_c02(prog, ar, tier, cfg)
     # ---------------------------------------------------------------- C12.a
     R = "C12.a"
     fm = [c for c in prog.who_calls(SF + "format_multiline_strings") if c.body.crate.startswith("pasfmt")]
